@@ -1,6 +1,6 @@
 """Per-property check procedures (see DESIGN.md section 4)."""
 import json, os
-from check import (build_harness, model_check, gen_random, play, validate, judge, finish, sample_behaviours,
+from check import (subsample, build_harness, model_check, gen_random, play, validate, judge, finish, sample_behaviours,
                    count_distinct, log, Machinery, read_lines, validate_single, harness)
 
 TB_CONN = ["TLC 1.8.0 (model checking and trace validation)",
@@ -14,7 +14,7 @@ ASSUME_CONN = ["handler-supplied strings contain no NUL byte",
 
 def conn_family(cx, model, gen_prop, n_quick, n_thorough, consts_thorough=None, rule="", extra_models=(),
                 trace_module="Trace_PgConn", trace_cfg=None, mc_workers=1, known_match=None, gen_extra=None,
-                play_extra=None, negative=(), proj=None):
+                play_extra=None, negative=(), proj=None, max_replay_quick=6000, max_replay_thorough=None):
     """Generic procedure for properties decided on the single-connection machine."""
     build_harness(cx)
     thorough = cx.tier == "thorough"
@@ -35,6 +35,8 @@ def conn_family(cx, model, gen_prop, n_quick, n_thorough, consts_thorough=None, 
         b2 = gen_random(cx, gen_prop, n_thorough if thorough else n_quick, extra=gen_extra)
         files.append(("rand", b2))
     for tag, b in files:
+        if tag.startswith("tlc"):
+            subsample(cx, b, max_replay_thorough if thorough else max_replay_quick)
         sample_behaviours(cx, b)
         trace, crash = play(cx, b, tag, extra=play_extra)
         rejected = [] if crash else validate(cx, trace, trace_module, trace_cfg)
@@ -70,7 +72,32 @@ def c06(cx):
              "ErrorResponse then silence until Sync, no callback while discarding, idle only when nothing is owed).")
 
 
-PROPS = {"C05": c05, "C06": c06}
+def c07(cx):
+    return conn_family(
+        cx, "MC_C07", "C07", 500, 10000,
+        consts_thorough={"MaxVer": 3},
+        rule="TLC explores every history of Parse/Bind/Describe/Execute/Close over statement names {'',a} and portal "
+             "names {'',p} (each followed by Sync), every Parse creating a fresh definition id that is visible in the "
+             "statement callback and the RowDescription; transition cover exported, replayed on the real server "
+             "(quick: seeded sample), validated by TLC: the Execute callback must name the definition and parameters "
+             "of the portal's own Bind. Random histories over 4 names, 30 messages, added.")
+
+
+def c08(cx):
+    return conn_family(
+        cx, "MC_C08", "C08", 300, 5000,
+        consts_thorough={"MaxParams": 3},
+        rule="TLC enumerates every Bind of the bounded model: 0..MaxParams parameters x {NULL, empty, ordinary, "
+             "NUL-containing} x every admissible parameter-format list (none/one/positional) x every admissible "
+             "result-format list for two columns (int4,text), for a statement without and with declared parameter "
+             "types; each conversation (Parse, Describe S, Bind, Describe P, Execute, Sync) is run on the real server "
+             "with real typed values substituted; TLC validates: parameters seen by the statement function (count, "
+             "order, byte digest, NULL, format tag, Scan result), ParameterDescription, RowDescription formats and the "
+             "encoding actually found in each DataRow field. Random driver: up to 300 parameters, 8 types, values to "
+             "10 KiB, random result columns.")
+
+
+PROPS = {"C05": c05, "C06": c06, "C07": c07, "C08": c08}
 
 
 def replay(cx, path):
